@@ -7,6 +7,7 @@ import (
 
 	cosmos_proto "github.com/cosmos/cosmos-proto"
 	"github.com/cosmos/cosmos-proto/anyutil"
+	"google.golang.org/protobuf/encoding/protowire"
 	"google.golang.org/protobuf/proto"
 	"google.golang.org/protobuf/reflect/protodesc"
 	"google.golang.org/protobuf/reflect/protoreflect"
@@ -125,6 +126,50 @@ func runC16(ctx *Ctx) {
 				val = val[:rapid.IntRange(0, len(val)).Draw(rt, "trunc")]
 			}
 		}
+		if rapid.IntRange(0, 7).Draw(rt, "badentry") == 0 {
+			// a map entry whose key (or value) field re-occurs in another wire type
+			// after a valid occurrence: reflection-based decoders mishandle it
+			vt := types[rapid.IntRange(0, len(types)-1).Draw(rt, "maptype")]
+			if c.Type != "" && rapid.Bool().Draw(rt, "sametype2") {
+				vt = model.TypeByName(c.Type)
+			}
+			var maps []protoreflect.FieldDescriptor
+			for i := 0; i < vt.Desc.Fields().Len(); i++ {
+				if fd := vt.Desc.Fields().Get(i); fd.IsMap() {
+					maps = append(maps, fd)
+				}
+			}
+			if len(maps) > 0 {
+				fd := maps[rapid.IntRange(0, len(maps)-1).Draw(rt, "mapfield")]
+				which := protowire.Number(rapid.IntRange(1, 2).Draw(rt, "keyOrValue"))
+				efd := fd.MapKey()
+				if which == 2 {
+					efd = fd.MapValue()
+				}
+				var entry []byte
+				if efd.Message() == nil {
+					entry = protowire.AppendTag(entry, which, wireTypeOf(efd))
+					entry = append(entry, model.DrawScalarPayload(rt, efd)...)
+				}
+				wrong := protowire.Type(rapid.SampledFrom([]int{0, 1, 2, 5}).Draw(rt, "wrongtype"))
+				entry = protowire.AppendTag(entry, which, wrong)
+				switch wrong {
+				case protowire.VarintType:
+					entry = protowire.AppendVarint(entry, 1)
+				case protowire.Fixed64Type:
+					entry = protowire.AppendFixed64(entry, 0)
+				case protowire.BytesType:
+					entry = protowire.AppendBytes(entry, nil)
+				default:
+					entry = protowire.AppendFixed32(entry, 0)
+				}
+				val = protowire.AppendBytes(protowire.AppendTag(append([]byte{}, val...), fd.Number(), protowire.BytesType), entry)
+				if c.Type == "" {
+					url = "/" + string(vt.Name)
+					c.Args["url"] = hexs([]byte(url))
+				}
+			}
+		}
 		c.Bytes = hexs(val)
 		c.Args["resolvers"] = fmt.Sprint(rapid.IntRange(0, 7).Draw(rt, "res"))
 		return c
@@ -148,6 +193,19 @@ func runC16(ctx *Ctx) {
 			"bad":  hexs(rapid.SliceOfN(rapid.Byte(), 1, 6).Draw(rt, "bad")),
 		}}
 	}, func(c *Case) error { return checkC16(ctx, c) })
+}
+
+// wireTypeOf is the wire type a scalar field's payload (model.DrawScalarPayload) has.
+func wireTypeOf(fd protoreflect.FieldDescriptor) protowire.Type {
+	switch fd.Kind() {
+	case protoreflect.Fixed32Kind, protoreflect.Sfixed32Kind, protoreflect.FloatKind:
+		return protowire.Fixed32Type
+	case protoreflect.Fixed64Kind, protoreflect.Sfixed64Kind, protoreflect.DoubleKind:
+		return protowire.Fixed64Type
+	case protoreflect.StringKind, protoreflect.BytesKind, protoreflect.MessageKind:
+		return protowire.BytesType
+	}
+	return protowire.VarintType
 }
 
 func c16opts(s string) proto.MarshalOptions {
